@@ -21,7 +21,7 @@ def run_one(job):
     if _ENGINE is None: _init()
     from interp import PathCtx, RustPanic, Unsupported, StepLimit, Infeasible
     from resolve import Unresolved
-    module, func, params, prefix = job
+    module, func, params, prefix = job[:4]
     mod = importlib.import_module(module)
     ctx = PathCtx(prefix)
     t = time.time()
@@ -55,7 +55,8 @@ def explore(module, func, params, workers=None, max_paths=200000, budget_s=None,
     own = False
     if pool is None and workers > 1:
         pool = mp.get_context('fork').Pool(workers, initializer=_init); own = True
-    pending = [[]]
+    plist = params if isinstance(params, list) else [params]
+    pending = [(i, []) for i in range(len(plist))][::-1]
     inflight = []
     try:
         while pending or inflight:
@@ -65,16 +66,19 @@ def explore(module, func, params, workers=None, max_paths=200000, budget_s=None,
                 res.exhaustive = False; pending = []
             if pool is None:
                 if not pending: break
-                summ = run_one((module, func, params, pending.pop()))
+                pi, pre = pending.pop()
+                summ = run_one((module, func, plist[pi], pre)); summ['_pi'] = pi
                 done = [summ]
             else:
                 while pending and len(inflight) < workers * 3:
-                    inflight.append(pool.apply_async(run_one, ((module, func, params, pending.pop()),)))
+                    pi, pre = pending.pop()
+                    inflight.append((pi, pool.apply_async(run_one, ((module, func, plist[pi], pre),))))
                 done = []
                 still = []
-                for a in inflight:
-                    if a.ready(): done.append(a.get())
-                    else: still.append(a)
+                for pi, a in inflight:
+                    if a.ready():
+                        sm = a.get(); sm['_pi'] = pi; done.append(sm)
+                    else: still.append((pi, a))
                 inflight = still
                 if not done:
                     time.sleep(0.002); continue
@@ -83,7 +87,7 @@ def explore(module, func, params, workers=None, max_paths=200000, budget_s=None,
                 res.checks += summ['checks']; res.solver_s += summ['solver_s']; res.cpu_s += summ['wall_s']
                 st = summ['status']
                 res.statuses[st] = res.statuses.get(st, 0) + 1
-                pending.extend(summ.pop('alternatives'))
+                pending.extend((summ['_pi'], alt) for alt in summ.pop('alternatives'))
                 if st == 'violation': res.violations.append(summ)
                 elif st == 'inconclusive': res.inconclusive.append(summ)
                 elif st == 'infeasible': res.infeasible += 1
